@@ -56,6 +56,7 @@ Mon0 == [ np     |-> 0,       \* probes created so far
           runT   |-> <<>>,    \* virtual times at which the executor ran to idle ("runall")
           g      |-> <<>>,    \* global timeline <<a, t, v>> of the notifications sent into the hot inputs
           unsubd |-> <<>>,    \* handle -> unsubscribe() has returned (or it was torn down by its composite)
+          lateadd|-> <<>>,    \* handle -> it was appended to a composite that had already been unsubscribed (C17: torn down at once)
           closed |-> <<>>,    \* handle -> is_closed() has answered true
           trig   |-> <<>>,    \* handle -> a finalize trigger (terminal or unsubscribe) has happened
           sdead  |-> <<>>,    \* subject -> terminated or unsubscribed
@@ -112,7 +113,7 @@ LogOne(m, e, C) ==
       (* subscription appended after the composite was unsubscribed must be torn down at once -- if it is left running *)
       (* its notifications arrive after unsubscribe() returned (cases marked "C17late")                                *)
       m3 == Flag(Flag(m2, h > 0 /\ GetB(m.closed, h), "C17", checks),
-                 "C17late" \in checks /\ h > 0 /\ GetB(m.unsubd, h), "C17", checks)
+                 h > 0 /\ (("C17late" \in checks /\ GetB(m.unsubd, h)) \/ GetB(m.lateadd, h)), "C17", checks)
       m4 == [m3 EXCEPT !.plog = SetAt(@, p, Append(GetS(@, p), <<e.t, e.v>>), <<>>),
                        !.pat = SetAt(@, p, Append(GetS(@, p), e.at), <<>>)]
       m5 == IF e.t \in {"E", "C"}
@@ -423,7 +424,8 @@ MonStep(m0, step, C) ==
                LET c == H(s.b) IN
                [mid EXCEPT !.hcomp = SetAt(@, c, H(s.a), 0),
                            !.hend = IF GetB(mid.unsubd, H(s.a)) /\ GetI(mid.hend, c) = 0 THEN SetAt(@, c, Len(mid.g) + 1, 0) ELSE @,
-                           !.unsubd = IF GetB(mid.unsubd, H(s.a)) THEN SetAt(@, c, TRUE, FALSE) ELSE @]
+                           !.unsubd = IF GetB(mid.unsubd, H(s.a)) THEN SetAt(@, c, TRUE, FALSE) ELSE @,
+                           !.lateadd = IF GetB(mid.unsubd, H(s.a)) THEN SetAt(@, c, TRUE, FALSE) ELSE @]
           [] s.k = "closed" ->
                IF o.fault # "" THEN mid
                ELSE IF o.ret = B(TRUE) THEN [mid EXCEPT !.closed = SetAt(@, H(s.a), TRUE, FALSE)]
